@@ -33,9 +33,9 @@ namespace GeographicLib {
       y0 = y,
       z0 = z,
       mul = 1;
-    // (isfinite test: with an infinite argument Q = An = inf and the loop would
-    // never end)
-    while (Q >= mul * fabs(An) && isfinite(An)) {
+    // (isfinite tests: with an infinite or huge argument Q is infinite and the
+    // loop would never end)
+    while (Q >= mul * fabs(An) && isfinite(An) && isfinite(Q)) {
       // Max 6 trips
       real lam = sqrt(x0)*sqrt(y0) + sqrt(y0)*sqrt(z0) + sqrt(z0)*sqrt(x0);
       An = (An + lam)/4;
@@ -140,9 +140,9 @@ namespace GeographicLib {
       mul = 1,
       mul3 = 1,
       s = 0;
-    // (isfinite test: with an infinite argument Q = An = inf and the loop would
-    // never end)
-    while (Q >= mul * fabs(An) && isfinite(An)) {
+    // (isfinite tests: with an infinite or huge argument Q is infinite and the
+    // loop would never end)
+    while (Q >= mul * fabs(An) && isfinite(An) && isfinite(Q)) {
       // Max 7 trips
       real
         lam = sqrt(x0)*sqrt(y0) + sqrt(y0)*sqrt(z0) + sqrt(z0)*sqrt(x0),
@@ -192,9 +192,9 @@ namespace GeographicLib {
       z0 = z,
       mul = 1,
       s = 0;
-    // (isfinite test: with an infinite argument Q = An = inf and the loop would
-    // never end)
-    while (Q >= mul * fabs(An) && isfinite(An)) {
+    // (isfinite tests: with an infinite or huge argument Q is infinite and the
+    // loop would never end)
+    while (Q >= mul * fabs(An) && isfinite(An) && isfinite(Q)) {
       // Max 7 trips
       real lam = sqrt(x0)*sqrt(y0) + sqrt(y0)*sqrt(z0) + sqrt(z0)*sqrt(x0);
       s += 1/(mul * sqrt(z0) * (z0 + lam));
